@@ -17,6 +17,7 @@ mod c17;
 mod c03;
 mod c08;
 mod c15;
+mod c16;
 mod c19;
 mod c20;
 
@@ -41,6 +42,7 @@ fn main() {
         "c03" => c03::run(rest),
         "c08" | "c09" => c08::run(rest),
         "c15" => c15::run(rest),
+        "c16" => c16::run(rest),
         "c19" => c19::run(rest),
         "c20" => c20::run(rest),
         "c01" | "c02" => c01::run(rest),
